@@ -589,6 +589,14 @@ def c07(tier, seed):
     for sd in seeds(rng, 2 if tier == "quick" else 20):
         out.append(scenario("c07-ctx-%d" % sd, {"body": t_ctx()}, {"checks": 100, "seed": sd, "nofailfile": "true", "shrinktime": "0s"},
                             runs=[{}, {"seedPrev": True, "expect": "seed_prev"}], tag={"template": "ctx"}))
+    # (b'') the printed seed reproduces in a NEW process too (nothing a generator remembers from earlier test cases may matter):
+    # case-insensitive regexp literals, character classes, Make, Deferred
+    for sd in seeds(rng, 4 if tier == "quick" else 40):
+        body = [draw(g("StringMatching", expr="(?i)content-length: [0-9]{1,2}"), "h"), draw(g("SliceOfBytesMatching", expr="(?i:etag)[a-f]+"), "e"),
+                draw(g("Make", type="map"), "m"), draw(g("Make", type="slice"), "ms"), draw(g("Deferred", elem=g("SliceOf", elem=g("Int8"))), "d"), draw(g("Int16"), "t", "t"),
+                iff("t", "ge", 3000, [op("fatalf", site=1)])]
+        out.append(scenario("c07-newproc-%d" % sd, {"body": body}, {"checks": 500, "seed": sd, "nofailfile": "true", "shrinktime": "0s"},
+                            runs=[{}, {"seedPrev": True, "expect": "seed_prev", "freshProc": True}], tag={"template": "regexp-ci", "freshProc": True}))
     # (c) same fixed seed twice (same process), with unrelated activity in between: identical runs
     for sd in seeds(rng, n):
         tn = rng.choice(sorted(TEMPLATES))
